@@ -192,6 +192,7 @@ func propC11(c *Check) {
 	mapOK := map[string]bool{"(*kernel.Node).nodeSequenceWithoutState": true}
 	for _, n := range []string{"(*kernel.Node).NodesListWithoutState", "(*kernel.Node).nodeSequenceWithoutState", "(*kernel.Node).ConsensusThreshold", "(*kernel.Chain).consensusNodes", "(*kernel.Chain).ConsensusKeys", "(*kernel.Node).PledgingNode", "(*kernel.Node).electSnapshotNode"} {
 		c.Pure(c.F(n), nil, mapOK, "a historical view is a function of the loaded membership records and the timestamp")
+		c.NoSharedWrites(c.F(n), "kernel", []string{"logger."}, "a view leaves no trace in node or chain state that a later query could observe")
 	}
 	c.Pure(c.F("storage.readCustodianAccount"), []string{"(*github.com/dgraph-io/badger", "(*sync.Map)"}, nil, "custodian lookups depend on stored records and the timestamp (Badger and sync.Map are the boundary)")
 	// the one map range is order-insensitive
@@ -422,6 +423,7 @@ func propC29(c *Check) {
 	w := c.W
 	for _, n := range []string{"(*kernel.Node).electSnapshotNode", "(*kernel.Node).checkRemovePossibility"} {
 		c.Pure(c.F(n), nil, map[string]bool{"(*kernel.Node).nodeSequenceWithoutState": true}, "election is a function of (operation, time, epoch, membership list)")
+		c.NoSharedWrites(c.F(n), "kernel", []string{"logger."}, "the election memoises nothing: the same (membership, time) gives the same node on every process")
 	}
 	if f := c.F("(*kernel.Node).electSnapshotNode"); f != nil {
 		list := Call("(*kernel.Node).NodesListWithoutState", Param("node"), Param("now"), ConstBool(true))
